@@ -135,7 +135,7 @@ def run_case(stream, seed, ctx, params):
             d = U.build_universe_deck(rng, depth=rng.randint(1, 3), macro_p=0.2, tr_p=0.1, fill_tr_p=0.6, trcl_p=0.3)
         else:
             d = U.build_universe_deck(rng, depth=2, macro_p=0.0, tr_p=0.0, fill_tr_p=0.3, trcl_p=0.2, lattice_p=0.6,
-                                      lat_tr_p=0.2, lat_big_p=0.1)
+                                      lat_tr_p=0.2, lat_big_p=0.3)
     else:
         d = coincident_deck(rng) if rng.random() < 0.6 else G.contradictory_union_deck(rng)
     G.vary_mats(d, rng)
